@@ -79,7 +79,7 @@ ASSUMPTIONS = [
 
 PER_CLASS_QUICK = 4
 NBUCKETS_QUICK = 8
-NBUCKETS_THOROUGH = 32
+NBUCKETS_THOROUGH = 16
 
 _STATE = {}
 
@@ -216,7 +216,29 @@ def generate(ctx):
     per_class = PER_CLASS_QUICK
     nb = NBUCKETS_THOROUGH if ctx.thorough else NBUCKETS_QUICK
     known = {KNOWN_CROP} if ctx.is_known(KNOWN_CROP) else set()
-    records, programs, mods, index, stats = tr.generate(ctx.rng, ctx.thorough, per_class, nb, ctx.hist, known)
+    probe_time = [0.0]
+
+    def on_view(rec, A, fn, shp, dt):
+        """numerical probe of this view on the real operator, while the operator is alive (results are reported by
+        correspond()).  thorough tier: every eval view of the whole grid, half of the adj views, an eighth of the rest."""
+        import time
+
+        if ctx.thorough and rec.get("ok", False):
+            keep = 1.0 if rec["view"] == "eval" else 0.5 if rec["view"] == "adj" else 0.125
+            if ctx.rng.random() > keep:
+                rec["probe"] = None
+                return
+        t = time.time()
+        try:
+            bad, nontrivial = probe(fn, shp, dt, ctx.rng, tr.field_of(A), "random")
+            rec["probe"] = {"bad": bad, "nontrivial": nontrivial, "dtype": np.dtype(dt).name, "nested": ops.is_nested(shp)}
+        except Exception as e:  # noqa: BLE001
+            rec["probe"] = {"raised": repr(e)[:200]}
+        probe_time[0] += time.time() - t
+
+    records, programs, mods, index, stats = tr.generate(ctx.rng, ctx.thorough, per_class, nb, ctx.hist, known, on_view)
+    stats["probe_s"] = round(probe_time[0], 1)
+    stats["trace_s"] = round(stats["trace_s"] - probe_time[0], 1)
     _STATE.update(records=records, programs=programs, mods=mods, index=index)
     ctx.extra["translator"] = stats
     ctx.extra["primitive_table"] = {k: v for k, v in sorted(ir.prim_table().items(), key=lambda kv: kv[1]) if any(k in e["prog"].prims for e in programs.values())}
@@ -229,9 +251,6 @@ def generate(ctx):
     ctx.extra["classes"] = {c: sorted(v) for c, v in have.items()}
     if missing:
         raise common.Infra(f"no translated eval+adj program for classes {missing}")
-    known_trace = [r for r in records if r.get("status") == "trace-error" and r.get("known_id")]
-    if known_trace:
-        ctx.count("known-trace-failures", len(known_trace))
     return mods
 
 
@@ -255,12 +274,25 @@ def _corpus(ctx, oracle):
         try:
             bad = oracle(case)
         except Exception as e:  # noqa: BLE001
+            if kind == "rejected-or-linear":
+                ctx.count(f"corpus-rejected:{type(e).__name__}")
+                ctx.case({"corpus": f.name, "rejected": type(e).__name__}, ("corpus", f.name))
+                continue
+            if kind == "nonlinear-known":  # e.g. the constructor now rejects the option: the witness no longer exists
+                ctx.count(f"corpus-known-no-longer-fails:{f.name}")
+                ctx.case({"corpus": f.name, "rejected": type(e).__name__}, None)
+                continue
             raise common.Infra(f"corpus case {f.name}: {e!r}") from e
         ctx.case({"corpus": f.name, "cls": case["cls"], "view": case["view"]}, ("corpus", f.name))
-        if kind == "linear" and bad is not None:
+        if kind in ("linear", "rejected-or-linear") and bad is not None:
             ctx.disagree("linearity.corpus", case, bad.get("what"), "linear", oracle=lambda c, _b=bad: _b)
-        if kind == "nonlinear-known" and bad is None:
-            ctx.count(f"corpus-known-no-longer-fails:{f.name}")
+        if kind == "nonlinear-known":
+            if bad is None or "raised" in bad:
+                ctx.count(f"corpus-known-no-longer-fails:{f.name}")
+            elif ctx.is_known(case.get("known_id")):
+                ctx.known_finding(case["known_id"], True, detail=f"corpus/C06/{f.name}: {bad.get('what')}")
+            else:
+                ctx.disagree("linearity.corpus", case, bad.get("what"), "recorded as repaired", oracle=lambda c, _b=bad: _b)
 
 
 def _mirror_vs_lean(ctx, model):
@@ -269,44 +301,37 @@ def _mirror_vs_lean(ctx, model):
     for ent in programs.values():
         got = model.call("check", **ir.json_prog(ent["prog"]))
         n += 1
+        if got["fast"] != got["tag"]:
+            raise common.Infra(f"checkFast {got['fast']} != check {got['tag']} on program {ent['hash'][:10]}")
         if got["tag"] != ir.tag_str(ent["tag"]):
             raise common.Infra(f"Python mirror of the checker says {ir.tag_str(ent['tag'])}, Lean says {got['tag']} on program {ent['hash'][:10]}")
     ctx.count("mirror-vs-lean-programs", n)
 
 
 def _probes(ctx, oracle_rng):
-    records = _STATE.get("records", [])
-    programs = _STATE.get("programs", {})
-    byhash = {e["hash"][:12]: e for e in programs.values()}
-    cache = {}
-    for r in records:
-        if r.get("status") not in ("ok", "trace-error", "not-translatable"):
+    """report the numerical probes taken (during generation) on every enumerated operator view"""
+    for r in _STATE.get("records", []):
+        if "probe" not in r:
             continue
+        pr = r["probe"]
         case = {"cls": r["cls"], "config": r["config"], "view": r["view"]}
-        ck = json.dumps([r["cls"], r["config"]], sort_keys=True, default=str)
-        try:
-            if ck not in cache:
-                cache.clear()
-                cache[ck] = ops.build(r["cls"], r["config"])
-            A = cache[ck]
-            (v, fn, shp, dt), = ops.views(A, [r["view"]])
-            if isinstance(fn, Exception):
-                raise fn
-            fld = tr.field_of(A)
-            bad, nontrivial = probe(fn, shp, dt, ctx.rng, fld, "random")
-        except Exception as e:  # noqa: BLE001
+        if pr is None:
+            ctx.count("probe-skipped-by-thorough-sampling")
+            continue
+        if "raised" in pr:
             ctx.count(f"probe-raised:{r['cls']}.{r['view']}")
             ctx.case(case, None)
             continue
-        ctx.case({"cls": r["cls"], "view": r["view"], "config": json.dumps(r["config"], default=str)[:200], "tag": r.get("tag")}, _key(r) if nontrivial else None, sample_every=97)
+        ctx.case({"cls": r["cls"], "view": r["view"], "config": json.dumps(r["config"], default=str)[:200], "tag": r.get("tag")},
+                 _key(r) if pr["nontrivial"] else None, sample_every=97)
         ctx.count(f"probe:{r['view']}")
-        ctx.count(f"probe-dtype:{np.dtype(dt).name}")
-        ctx.count("probe-blockarray" if ops.is_nested(shp) else "probe-array")
+        ctx.count(f"probe-dtype:{pr['dtype']}")
+        ctx.count("probe-blockarray" if pr["nested"] else "probe-array")
+        bad = pr["bad"]
         if bad is not None:
             bad.update(case)
             verdict = r.get("tag", r.get("status"))
             ctx.disagree(f"linearity.{r['view']}", case, bad["what"], f"checker verdict: {verdict}", oracle=lambda c, _b=bad: _b)
-    del byhash
 
 
 # --- synthetic scalar programs: Lean semantics `run` vs Python, verdict vs behaviour --------------------------
@@ -457,6 +482,9 @@ def _jax_blocks():
         "dynslice": lambda x: jnp.pad(jax.lax.dynamic_slice(x, (jnp.asarray(1),), (4,)), (1, 1)),
         "conj2": lambda x: jnp.conj(jnp.conj(x)),
         "setzero": lambda x: x.at[2].set(0.0),
+        "rfft_irfft": lambda x: x if jnp.iscomplexobj(x) else jnp.fft.irfft(c3[:4] * jnp.fft.rfft(x), n=6),
+        "take_dup": lambda x: jnp.take(x, idx[::-1]) - x,
+        "tril_matmul": lambda x: jnp.tril(jnp.ones((6, 6), x.dtype)) @ x,
     }
     nonlin = {
         "abs": lambda x: jnp.abs(x).astype(x.dtype),
@@ -469,6 +497,10 @@ def _jax_blocks():
         "wheredata": lambda x: jnp.where(x.real > 0, x, 0),
         "conj": lambda x: jnp.conj(x),
         "real": lambda x: x.real.astype(x.dtype),
+        "irfft_of_complex": lambda x: jnp.fft.irfft(x[:4], n=6).astype(x.dtype),
+        "sortidx": lambda x: jnp.sort(x.real).astype(x.dtype),
+        "max_reduce": lambda x: x - jnp.max(x.real),
+        "sign_mul": lambda x: jnp.sign(x.real) * x,
     }
     return lin, nonlin
 
@@ -526,12 +558,16 @@ def correspond(ctx, model):
     import warnings
 
     warnings.filterwarnings("ignore")
+    import time
+
     oracle = oracle_for(ctx.rng)
-    _corpus(ctx, oracle)
-    _mirror_vs_lean(ctx, model)
-    _probes(ctx, ctx.rng)
-    _synthetic_scalar(ctx, model)
-    _synthetic_jax(ctx, model)
+    timing = ctx.extra.setdefault("timing_s", {})
+    for name, fn in (("corpus", lambda: _corpus(ctx, oracle)), ("mirror_vs_lean", lambda: _mirror_vs_lean(ctx, model)),
+                     ("probes", lambda: _probes(ctx, ctx.rng)), ("synthetic_scalar", lambda: _synthetic_scalar(ctx, model)),
+                     ("synthetic_jax", lambda: _synthetic_jax(ctx, model))):
+        t = time.time()
+        fn()
+        timing[name] = round(time.time() - t, 1)
 
 
 # ---------------------------------------------------------------------------------------------------------------
